@@ -120,6 +120,11 @@ def run_params(case):
                             continue
                     else:
                         cand = mine
+                    if op.get('shared'):
+                        # one parameter queried by several threads at once, each with a different kind of request
+                        cand = [i for i in range(len(toc)) if toc[i]['persistent']]
+                        if not cand or (op['op'] == 'default' and version < 4):
+                            continue
                     idx = cand[op['p'] % len(cand)]
                     if op.get('same') and prev[0] in cand:
                         idx = prev[0]
@@ -445,6 +450,11 @@ def param_case(draw):
                     op['unknown'] = False
                 burst.append(op)
             th[pos:pos] = burst
+    if nt >= 2 and draw(st.booleans()):
+        pidx = draw(st.integers(0, 15))
+        kinds = draw(st.permutations(['default', 'state', 'store', 'clear']))
+        for th, kind in zip(threads, kinds):
+            th.insert(0, {'op': kind, 'p': pidx, 'gap': 0, 'same': False, 'shared': True})
     notifications = draw(st.lists(st.fixed_dictionaries({'at': st.sampled_from([0.0, 0.0005, 0.001, 0.002, 0.01, 0.05, 0.3]), 'p': st.integers(0, 15),
                                                          'v': st.integers(0, 1000)}), max_size=4))
     return {'version': draw(st.sampled_from([10, 10, 4, 3, 0])), 'tseed': draw(st.integers(0, 9)), 'threads': threads, 'notifications': notifications,
